@@ -195,7 +195,7 @@ def mk_conv(name, D, L, sgn, T, direction):
             e = env.dom.E(env.raw["v"])
             exp = z3.SignExt(W - bits(T), e) if signed(T) else z3.ZeroExt(W - bits(T), e)
             return [("value-preserved", R == exp)]
-        return Kernel(name, args, "i32", body, mode="bv", W=bits(T) + 8, claims=claims, unwind=4 * n + 16, timeout=120,
+        return Kernel(name, args, "i32", body, mode="bv", W=max(bits(T), lw) + 8, claims=claims, unwind=4 * n + 16, timeout=120,
                       desc="wide_integer<%d,%s%s>{%s}" % (D, "s" if sgn else "u", L[1:], T), tags={"op": "from", "D": D, "L": L, "sgn": sgn})
     body = (PRE % (wt(D, L, sgn), n * lw // 8) + LOAD % ("a", n, "a", "a")
             + "    return static_cast<%s>(cnl::_impl::from_rep<W>(ra));" % cpp(T))
